@@ -19,7 +19,7 @@ import threading
 from harness.core import enc_str, dec_str, LEAN, REPO
 
 PROPERTY = "C16"
-READY = False
+READY = True
 PARALLEL = False           # threads + tracing: keep everything in one process
 STATEFUL = True
 
@@ -550,11 +550,26 @@ _ANALYSIS = {}
 
 def analyse(repo):
     """static analysis of the two functions (cached per source text)"""
-    path, gen, req = _load_codes(repo)
+    path = os.path.join(repo, "ak", "conn_http.py")
     key = (path, os.path.getmtime(path), os.path.getsize(path))
+    if key in _ANALYSIS and isinstance(_ANALYSIS[key], Exception):
+        raise _ANALYSIS[key]
     if key not in _ANALYSIS:
-        a = _extract_program(gen)
-        a.update(_extract_branch(req, a["counter"]))
+        try:
+            path, gen, req = _load_codes(repo)
+        except Exception as e:
+            _ANALYSIS[key] = e
+            raise
+        try:
+            a = _extract_program(gen)
+        except Exception as e:
+            _ANALYSIS[key] = e
+            raise
+        try:
+            a.update(_extract_branch(req, a["counter"]))
+        except Exception as e:
+            _ANALYSIS[key] = e
+            raise
         a["path"] = path
         _ANALYSIS[key] = a
     return _ANALYSIS[key]
@@ -596,5 +611,892 @@ def translate(repo):
     return {"AkVerif/Gen/C16.lean": "\n".join(body)}
 
 
-def _crosscheck_trace(a):
+
+# ====================================================================== forced interleavings of real threads
+def _conn_http():
+    from ak import conn_http
+    return conn_http
+
+
+_LOCK_TYPES = (type(threading.Lock()), type(threading.RLock()))
+_CUR = [None]            # the scheduler of the `par` line being executed
+DRAIN_RUN = 1000000      # = Interleave.drainRun
+STEP_TIMEOUT = 20.0
+
+
+class _Abort(BaseException):
     pass
+
+
+class _CoopLock:
+    """the connection's own threading.Lock, acquired without blocking inside a forced schedule:
+    a failed attempt gives the baton back (one wasted step, as in the model) and is retried"""
+
+    def __init__(self, real):
+        self._real = real
+
+    def acquire(self, blocking=True, timeout=-1):
+        sch = _CUR[0]
+        k = getattr(sch.local, "k", None) if sch is not None else None
+        if k is None or not blocking or timeout != -1:
+            return self._real.acquire(blocking, timeout)
+        while not self._real.acquire(False):
+            sch.point(k, blocked=True)
+        return True
+
+    def release(self):
+        self._real.release()
+
+    def locked(self):
+        return self._real.locked()
+
+    def __enter__(self):
+        self.acquire()
+        return True
+
+    def __exit__(self, *a):
+        self._real.release()
+
+
+def wrap_locks(obj):
+    for name, val in list(vars(obj).items()):
+        if isinstance(val, _LOCK_TYPES):
+            setattr(obj, name, _CoopLock(val))
+
+
+_WARM = set()
+
+
+def _trace_offsets(code, fn):
+    """offsets of the opcode events raised in `code` while fn() runs"""
+    ev = []
+
+    def loc(frame, event, arg):
+        if event == "opcode":
+            ev.append(frame.f_lasti)
+        return loc
+
+    def glob(frame, event, arg):
+        if frame.f_code is code:
+            frame.f_trace_opcodes = True
+            frame.f_trace_lines = False
+            return loc
+        return None
+
+    old = sys.gettrace()
+    sys.settrace(glob)
+    try:
+        fn()
+    finally:
+        sys.settrace(old)
+    return ev
+
+
+def _warm_up(codes, fn):
+    """CPython 3.12 delivers no opcode events in the first tracing session that asks for them on a
+    code object; run throw-away sessions until they arrive"""
+    for code in codes:
+        if code in _WARM:
+            continue
+        for _ in range(4):
+            if _trace_offsets(code, fn):
+                break
+        _WARM.add(code)
+
+
+def _scratch_call():
+    ch = _conn_http()
+    impl = ch._HttpConnImpl("http://warmup")
+    return impl._generate_request_id
+
+
+def _crosscheck_trace(a):
+    """the statically extracted path must be the one a real call takes"""
+    try:
+        ch = _conn_http()
+        if not os.path.samefile(ch.__file__, a["path"]):
+            return
+        code = ch._HttpConnImpl._generate_request_id.__code__
+    except Exception:
+        return
+    call = _scratch_call()
+    _warm_up([code], call)
+    got = _trace_offsets(code, call)
+    if got != a["offsets"]:
+        raise Refuse("a traced call of _generate_request_id executes offsets %s, the translator extracted %s"
+                     % (got, a["offsets"]))
+
+
+class Forced:
+    """runs `bodies[k]()` in real threads; inside the code objects `codes` a thread advances only when
+    the schedule says so, one bytecode instruction per step"""
+
+    def __init__(self, codes, bodies):
+        self.codes = set(codes)
+        self.n = len(bodies)
+        self.bodies = bodies
+        self.go = [threading.Semaphore(0) for _ in bodies]
+        self.back = threading.Semaphore(0)
+        self.grant = [0] * self.n
+        self.done = [False] * self.n
+        self.exc = [None] * self.n
+        self.steps = [0] * self.n
+        self.local = threading.local()
+        self.abort = False
+        self.hung = False
+        self.threads = []
+
+    # ---- worker side
+    def _global(self, frame, event, arg):
+        if frame.f_code in self.codes:
+            frame.f_trace_opcodes = True
+            frame.f_trace_lines = False
+            return self._local
+        return None
+
+    def _local(self, frame, event, arg):
+        if event == "opcode":
+            self.point(self.local.k)
+        return self._local
+
+    def point(self, k, blocked=False):
+        if self.abort:
+            raise _Abort()
+        if blocked:
+            self.grant[k] = 0          # the rest of the run is wasted as well
+        if self.grant[k] > 0:
+            self.grant[k] -= 1
+            self.steps[k] += 1
+            return
+        self.back.release()
+        self.go[k].acquire()
+        if self.abort:
+            raise _Abort()
+        self.grant[k] -= 1
+        self.steps[k] += 1
+
+    def _worker(self, k):
+        self.local.k = k
+        self.go[k].acquire()
+        try:
+            if not self.abort:
+                sys.settrace(self._global)
+                self.bodies[k]()
+        except _Abort:
+            pass
+        except BaseException as e:     # noqa: the exception is an observation
+            self.exc[k] = e
+        finally:
+            sys.settrace(None)
+            self.done[k] = True
+            self.back.release()
+
+    # ---- scheduler side
+    def _give(self, t, n):
+        if self.done[t] or self.hung:
+            return
+        self.grant[t] = n
+        self.go[t].release()
+        if not self.back.acquire(timeout=STEP_TIMEOUT):
+            self.hung = True
+
+    def run(self, sched):
+        """sched: [(thread, steps)]; returns 'ok' | 'deadlock' | 'hang'"""
+        _CUR[0] = self
+        for k in range(self.n):
+            th = threading.Thread(target=self._worker, args=(k,), daemon=True)
+            self.threads.append(th)
+            th.start()
+        try:
+            for t in range(self.n):            # prologue: up to the first traced instruction
+                self._give(t, 0)
+            for t, n in sched:
+                if 0 <= t < self.n and n > 0:
+                    self._give(t, n)
+            for _ in range(self.n + 1):        # drain
+                if all(self.done):
+                    break
+                for t in range(self.n):
+                    self._give(t, DRAIN_RUN)
+            status = "hang" if self.hung else ("ok" if all(self.done) else "deadlock")
+        finally:
+            self.abort = True
+            for t in range(self.n):
+                if not self.done[t]:
+                    self.grant[t] = 1
+                    self.go[t].release()
+            for th in self.threads:
+                th.join(timeout=2.0)
+            _CUR[0] = None
+        return status
+
+
+# ====================================================================== the real code behind the protocol
+THEOREMS = [
+    "C16.program_ok", "C16.locked_unique", "C16.locked_gap_free", "C16.locked_in_order", "C16.par_ids",
+    "C16.format_ok", "C16.format_injective", "C16.header_test_ok", "C16.caller_id", "C16.derived_shares",
+]
+
+
+def _names():
+    """attribute names found by the translator (defaults when it refuses)"""
+    try:
+        a = analyse(REPO)
+        return a["counter"], a["conn"], len(a["program"])
+    except Exception:
+        return "_cur_req_id", "_reqid_connection_part", 37
+
+
+def enc_hdrs(pairs):
+    return ";".join("%s=%s" % (enc_str(k), enc_str(v)) for k, v in pairs) if pairs else "_"
+
+
+def dec_hdrs(t):
+    if t == "_":
+        return []
+    return [tuple(dec_str(x) for x in kv.split("=")) for kv in t.split(";")]
+
+
+def _is_id_name(name):
+    return name.lower() == "x-request-id"
+
+
+class _Capture:
+    """replacement of urllib.request.OpenerDirector.open (as tests/mock_http does), remembering which
+    thread sent what under 'X-request-id'"""
+
+    def __init__(self):
+        self.sent = {}
+
+    def __enter__(self):
+        from unittest.mock import patch
+        from tests.mock_http import _FakeHttpResponse
+        cap = self
+
+        def opener(_self, request):
+            cap.sent.setdefault(threading.get_ident(), []).append(request.get_header("X-request-id"))
+            return _FakeHttpResponse(request.method, 200, b"")
+        import urllib.request
+        director = urllib.request.OpenerDirector
+        self._p = patch("urllib.request.OpenerDirector.open", opener)
+        # building the default opener loads the system's TLS certificates (25 ms per connection); the
+        # opener is never used for real, its `open` is the function above
+        self._q = patch("urllib.request.build_opener", lambda *handlers: director())
+        self._p.start()
+        self._q.start()
+        return self
+
+    def __exit__(self, *a):
+        self._q.stop()
+        self._p.stop()
+
+    def take(self, ident=None):
+        return self.sent.pop(ident if ident is not None else threading.get_ident(), [])
+
+
+class _Real:
+    """connections built by the lines of one case"""
+
+    def __init__(self):
+        self.ch = _conn_http()
+        self.conns = []        # (connection object, family index)
+        self.fams = []         # dict(impl=, cp_line=, ids=)
+        self.counter_attr, self.conn_attr, _ = _names()
+
+    def canon(self, fam, v):
+        """replace the random connection part by the one named in the `new` line"""
+        if v is None:
+            return None
+        f = self.fams[fam]
+        real = getattr(f["impl"], self.conn_attr, None) if self.conn_attr else None
+        if isinstance(v, str) and isinstance(real, str) and real and v.startswith(real):
+            return f["cp_line"] + v[len(real):]
+        return v
+
+    def new(self, cp, ids):
+        if ids:
+            c = self.ch.HttpConn("http://host.example")
+        else:
+            c = self.ch.HttpConn({"address": "http://host.example", "_send_request_ids": False})
+        wrap_locks(c.conn_impl)
+        self.fams.append({"impl": c.conn_impl, "cp_line": cp, "ids": ids})
+        self.conns.append((c, len(self.fams) - 1))
+        return len(self.conns) - 1
+
+    def wrap(self, c, kind):
+        parent, fam = self.conns[c]
+        ch = self.ch
+        if kind == "bauth":
+            d = ch.BAuthConn(parent, "user", "pw")
+        elif kind == "token":
+            d = ch.TokenAuthConn(parent, "tok")
+        elif kind == "client":
+            d = ch.ClientAuthConn(parent, "cn", "cid", "cs")
+        elif kind == "prefix":
+            d = ch.HttpConn(parent, adapters=[ch.RequestAdapterAddPathPrefix("/api")])
+        else:
+            d = ch.HttpConn(parent)
+        self.conns.append((d, fam))
+        return len(self.conns) - 1
+
+    def send(self, c, pairs, method="get"):
+        conn, _ = self.conns[c]
+        kw = {"headers": dict(pairs)} if pairs else {}
+        if method in ("post", "put", "patch"):
+            kw["data"] = {"k": 1}
+        getattr(conn, method)("p", **kw)
+
+
+def _show(v):
+    return "none" if v is None else enc_str(v) if isinstance(v, str) else "nonstr"
+
+
+def _err(e):
+    return "err " + type(e).__name__
+
+
+_LAST = {}
+
+
+def _run(case):
+    """-> (replies, details); details feed the oracle"""
+    lines = case["lines"]
+    replies, details = [], []
+    w = _Real()
+    gen_code = None
+    try:
+        gen_code = w.ch._HttpConnImpl._generate_request_id.__code__
+    except AttributeError:
+        pass
+    with _Capture() as cap:
+        for line in lines:
+            tok = line.split()
+            d = {"kind": tok[0] if tok else "?"}
+            try:
+                if tok[0] == "new":
+                    k = w.new(dec_str(tok[1]), tok[2] == "1")
+                    d.update(fam=w.conns[k][1], ids=tok[2] == "1")
+                    replies.append("ok %d" % k)
+                elif tok[0] == "wrap":
+                    if int(tok[1]) >= len(w.conns):
+                        replies.append("err IndexError")
+                    else:
+                        replies.append("ok %d" % w.wrap(int(tok[1]), tok[2]))
+                elif tok[0] == "req":
+                    c, pairs = int(tok[1]), dec_hdrs(tok[2])
+                    if c >= len(w.conns):
+                        replies.append("err IndexError")
+                    else:
+                        fam = w.conns[c][1]
+                        cap.take()
+                        w.send(c, pairs, tok[3] if len(tok) > 3 else "get")
+                        got = cap.take()
+                        sent = w.canon(fam, got[0]) if len(got) == 1 else "<%d requests>" % len(got)
+                        d.update(fam=fam, supplied=[v for k, v in pairs if _is_id_name(k)], sent=sent)
+                        replies.append("sent " + _show(sent))
+                elif tok[0] == "burst":
+                    c, n = int(tok[1]), int(tok[2])
+                    if c >= len(w.conns):
+                        replies.append("err IndexError")
+                    else:
+                        fam = w.conns[c][1]
+                        cap.take()
+                        for _ in range(n):
+                            w.send(c, [])
+                        got = [w.canon(fam, v) for v in cap.take()]
+                        d.update(fam=fam, sent=got, n=n)
+                        replies.append("ok %s %s" % (_show(got[0]), _show(got[-1])) if got else "ok none none")
+                elif tok[0] in ("par", "parw"):
+                    replies.append(_run_par(w, cap, tok, d, gen_code))
+                elif tok[0] == "enum":
+                    replies.append("none")
+                else:
+                    replies.append("bad-op")
+            except Exception as e:     # an exception the adapter did not expect is an observation
+                d["error"] = type(e).__name__
+                replies.append(_err(e))
+            details.append(d)
+    return replies, details
+
+
+def _run_par(w, cap, tok, d, gen_code):
+    c = int(tok[1])
+    threads = [[] if t == "." else [(int(r.split("@")[0]), dec_hdrs(r.split("@")[1])) for r in t.split("+")]
+               for t in tok[2].split("|")]
+    sched = [] if tok[3] == "-" else [tuple(int(x) for x in r.split("*")) for r in tok[3].split(",")]
+    if c >= len(w.conns) or any(rc >= len(w.conns) for t in threads for rc, _ in t):
+        return "err IndexError"
+    fam = w.conns[c][1]
+    if any(w.conns[rc][1] != fam for t in threads for rc, _ in t):
+        return "err IndexError"
+    if tok[0] == "parw" or gen_code is None:
+        ch = w.ch
+        codes = [f.__code__ for cls in vars(ch).values() if isinstance(cls, type) and cls.__module__ == ch.__name__
+                 for f in vars(cls).values() if hasattr(f, "__code__")]
+        codes += [k for co in list(codes) for k in co.co_consts if hasattr(k, "co_code")]
+    else:
+        codes = [gen_code]
+    _warm_up([gen_code] if gen_code is not None else [], _scratch_call()) if gen_code is not None else None
+    idents = [None] * len(threads)
+
+    def body(k):
+        def run():
+            idents[k] = threading.get_ident()
+            for rc, pairs in threads[k]:
+                w.send(rc, pairs)
+        return run
+
+    f = Forced(codes, [body(k) for k in range(len(threads))])
+    status = f.run(sched)
+    out = []
+    for k, t in enumerate(threads):
+        got = [w.canon(fam, v) for v in cap.sent.pop(idents[k], [])] if idents[k] is not None else []
+        out.append(got)
+    d.update(fam=fam, status=status, steps=list(f.steps),
+             threads=[[{"supplied": [v for kk, v in pairs if _is_id_name(kk)],
+                        "sent": out[k][j] if j < len(out[k]) else "<missing>"}
+                       for j, (rc, pairs) in enumerate(t)] for k, t in enumerate(threads)])
+    errs = [e for e in f.exc if e is not None]
+    if errs:
+        d["error"] = type(errs[0]).__name__
+        return _err(errs[0])
+    if status != "ok":
+        return "err OUT-OF-FUEL" if status == "deadlock" else "err hang"
+    return "ok " + "|".join("." if not t else "+".join(_show(v) for v in t) for t in out)
+
+
+def impl(case):
+    replies, details = _run(case)
+    _LAST.clear()
+    _LAST[tuple(case["lines"])] = details
+    return replies
+
+
+def observable(i, line):
+    return not line.startswith("enum")
+
+
+# ====================================================================== oracle: the property itself
+def _seq_of(v):
+    """the sequence number carried by an id of today's layout: its last run of >= 12 digits"""
+    m = re.search(r"(\d{12,})$", v)
+    return int(m.group(1)) if m else None
+
+
+def oracle(case, replies):
+    """Stated on what the opener was handed, per family of connections sharing one implementation:
+      * every request that brings no id of its own carries an id, and these ids are pairwise distinct;
+      * their sequence numbers continue without gap or repeat (k such requests -> k consecutive
+        numbers; concurrent ones: exactly the next k numbers in some order, increasing per thread);
+      * a request that brings an id under 'X-Request-ID' in any capitalisation is sent with that id
+        and takes no number.
+    Nothing here looks at the Lean model."""
+    details = _LAST.get(tuple(case["lines"]))
+    if details is None:
+        details = _run(case)[1]
+    fams = {}
+
+    def auto(fam, sent, where, st):
+        if sent is None:
+            return "missing-id: %s carries no X-Request-ID" % where
+        if not isinstance(sent, str):
+            return "bad-id: %s carries %r" % (where, sent)
+        if sent in st["ids"]:
+            return "duplicate-id: %s carries %s, already used on this connection" % (where, sent)
+        st["ids"].add(sent)
+        return None
+
+    for n, d in enumerate(details):
+        if d.get("kind") == "new":
+            fams[d["fam"]] = {"ids": set(), "next": None, "enabled": d["ids"], "dead": False}
+            continue
+        if d.get("kind") not in ("req", "burst", "par", "parw") or "fam" not in d:
+            continue
+        st = fams.get(d["fam"])
+        if st is None or not st["enabled"] or st["dead"]:
+            continue
+        if "error" in d or d.get("status", "ok") != "ok":
+            st["dead"] = True          # crash / deadlock: reported by the correspondence, no claim here
+            continue
+        where = "line %d (%s)" % (n, d["kind"])
+        if d["kind"] == "req":
+            groups = [[{"supplied": d["supplied"], "sent": d["sent"]}]]
+        elif d["kind"] == "burst":
+            if len(d["sent"]) != d["n"]:
+                return "missing-request: %s sent %d of %d requests" % (where, len(d["sent"]), d["n"])
+            groups = [[{"supplied": [], "sent": v}] for v in d["sent"]]
+        else:
+            groups = None
+        if groups is not None:            # sequential requests, in order
+            for g in groups:
+                r = g[0]
+                if r["supplied"]:
+                    if r["sent"] not in r["supplied"]:
+                        return "caller-id: %s supplied %r, sent %r" % (where, r["supplied"], r["sent"])
+                    continue
+                msg = auto(d["fam"], r["sent"], where, st)
+                if msg:
+                    return msg
+                s = _seq_of(r["sent"])
+                if s is None:
+                    st["next"] = False         # layout without a readable number: distinctness only
+                elif st["next"] is None:
+                    st["next"] = s + 1
+                elif st["next"] is not False:
+                    if s != st["next"]:
+                        return "sequence: %s got number %d, expected %d" % (where, s, st["next"])
+                    st["next"] = s + 1
+            continue
+        # concurrent requests
+        seqs = []
+        for k, t in enumerate(d["threads"]):
+            last = None
+            for r in t:
+                if r["supplied"]:
+                    if r["sent"] not in r["supplied"]:
+                        return "caller-id: %s thread %d supplied %r, sent %r" % (where, k, r["supplied"], r["sent"])
+                    continue
+                msg = auto(d["fam"], r["sent"], where + " thread %d" % k, st)
+                if msg:
+                    return msg
+                s = _seq_of(r["sent"])
+                seqs.append(s)
+                if s is not None and last is not None and s <= last:
+                    return "sequence: %s thread %d got %d after %d" % (where, k, s, last)
+                last = s if s is not None else last
+        if any(s is None for s in seqs):
+            st["next"] = False
+        elif seqs and st["next"] is not False:
+            base = st["next"] if st["next"] is not None else min(seqs)
+            if sorted(seqs) != list(range(base, base + len(seqs))):
+                return "sequence: %s handed out %s, expected the %d numbers from %d" % (
+                    where, sorted(seqs), len(seqs), base)
+            st["next"] = base + len(seqs)
+    return None
+
+
+# ====================================================================== generators
+CPS = ["ab12", "0000", "ffff", "9a0c", "dead", "1234"]
+ID_NAMES = ["X-Request-ID", "x-request-id", "X-REQUEST-ID", "X-request-id", "X-Request-Id", "x-Request-iD"]
+NEAR_NAMES = ["X-Request-IDx", "X-Request_ID", "Request-ID", "X-Request-I", "xx-request-id", "X-Request-ID ",
+              "X-Correlation-ID"]
+OTHER = [("Accept", "*/*"), ("X-Trace", "Zt1"), ("Content-Type", "text/plain"), ("User-Agent", "Zua")]
+KINDS = ["plain", "bauth", "token", "client", "prefix"]
+METHODS = ["get", "post", "put", "delete", "patch"]
+
+
+def _rand_case_name(rng):
+    return "".join(c.upper() if rng.random() < 0.5 else c.lower() for c in "x-request-id")
+
+
+def _rand_value(rng):
+    return "Z" + "".join(rng.choice("abcXYZ019-_") for _ in range(rng.randrange(0, 6)))
+
+
+def _rand_headers(rng, p_none=0.55):
+    x = rng.random()
+    if x < p_none:
+        return []
+    pairs = []
+    if x < p_none + 0.15:
+        for _ in range(rng.randrange(1, 3)):
+            pairs.append(rng.choice(OTHER) if rng.random() < 0.5 else (rng.choice(NEAR_NAMES), _rand_value(rng)))
+    else:
+        if rng.random() < 0.4:
+            pairs.append(rng.choice(OTHER))
+        name = rng.choice(ID_NAMES) if rng.random() < 0.6 else _rand_case_name(rng)
+        pairs.append((name, _rand_value(rng)))
+        if rng.random() < 0.08:
+            pairs.append((_rand_case_name(rng), _rand_value(rng)))
+        if rng.random() < 0.3:
+            pairs.append((rng.choice(NEAR_NAMES), _rand_value(rng)))
+    seen, out = set(), []
+    for k, v in pairs:
+        if k not in seen:
+            seen.add(k)
+            out.append((k, v))
+    return out
+
+
+def _prog_info():
+    """(length, index of acq, index of rel) of the extracted program (defaults when the translator refuses)"""
+    try:
+        prog = analyse(REPO)["program"]
+        kinds = [t[0] for t in prog]
+        return len(prog), kinds.index("acq") if "acq" in kinds else 2, kinds.index("rel") if "rel" in kinds else len(prog) // 2
+    except Exception:
+        return 37, 2, 17
+
+
+def _prelude(rng, lines, nfam_max=2):
+    """new/wrap lines; returns {family: [connection indices]} for families with ids"""
+    fams = {}
+    nconn = 0
+    for f in range(rng.randrange(1, nfam_max + 1)):
+        ids = 1 if f == 0 or rng.random() < 0.7 else 0
+        lines.append("new %s %d" % (enc_str(rng.choice(CPS)), ids))
+        mine = [nconn]
+        auth = {nconn: False}          # two authenticating layers are rejected by the adapters themselves
+        nconn += 1
+        for _ in range(rng.choice([0, 1, 1, 2, 3])):
+            parent = rng.choice(mine)
+            kind = rng.choice(["plain", "prefix"] if auth[parent] else KINDS)
+            lines.append("wrap %d %s" % (parent, kind))
+            auth[nconn] = auth[parent] or kind in ("bauth", "token", "client")
+            mine.append(nconn)
+            nconn += 1
+        fams[f] = (ids, mine)
+    return fams
+
+
+def _req_line(rng, conns, p_none=0.55):
+    m = rng.choice(METHODS) if rng.random() < 0.5 else "get"
+    return "req %d %s %s" % (rng.choice(conns), enc_hdrs(_rand_headers(rng, p_none)), m)
+
+
+def _sched(rng, kind, nthreads, nreq, L, A, R):
+    total = L * max(1, max(nreq))
+    if kind == "empty":
+        return []
+    if kind == "rr1":
+        return [(t, 1) for _ in range(total + 5) for t in range(nthreads)]
+    if kind == "grid":
+        return [(t, rng.randrange(0, L + 2)) for t in range(nthreads)]
+    if kind == "critical":      # everybody is stopped somewhere between the acquire and the release
+        out = [(t, rng.randrange(A, R + 3)) for t in range(nthreads)]
+        rng.shuffle(out)
+        return out + [(rng.randrange(nthreads), rng.randrange(1, L)) for _ in range(rng.randrange(0, 4))]
+    if kind == "blocks":
+        out = [(t, L) for t in range(nthreads) for _ in range(nreq[t])]
+        rng.shuffle(out)
+        return out
+    out = []                    # random runs
+    mean = rng.choice([1, 2, 4, 8, 16])
+    for _ in range(rng.randrange(1, 3 * nthreads * total // mean + 2)):
+        out.append((rng.randrange(nthreads), rng.randrange(1, 2 * mean + 1)))
+    return out
+
+
+def enc_sched(s):
+    return ",".join("%d*%d" % tn for tn in s) if s else "-"
+
+
+def _par_line(rng, conns, kind, L, A, R, nthreads=None, p_none=0.8):
+    nthreads = nthreads or rng.choice([2, 2, 2, 3, 3, 4])
+    threads, nreq = [], []
+    for _ in range(nthreads):
+        reqs = [(rng.choice(conns), _rand_headers(rng, p_none)) for _ in range(rng.choice([1, 1, 2, 2, 3, 0]))]
+        threads.append(reqs)
+        nreq.append(sum(1 for _, h in reqs if not any(_is_id_name(k) for k, _ in h)))
+    spec = "|".join("." if not t else "+".join("%d@%s" % (c, enc_hdrs(h)) for c, h in t) for t in threads)
+    return "par %d %s %s" % (conns[0], spec, enc_sched(_sched(rng, kind, nthreads, nreq, L, A, R)))
+
+
+SCHED_KINDS = ["random", "random", "random", "rr1", "grid", "grid", "critical", "critical", "blocks", "empty"]
+
+
+def corpus():
+    x = enc_str("ab12")
+    out = []
+    # the header-case defect repaired by 074d1c0: every spelling of the name is the caller's id
+    for name in ("x-request-id", "X-Request-Id", "X-request-id", "X-REQUEST-ID"):
+        out.append({"lines": ["new %s 1" % x, "req 0 _", "req 0 %s" % enc_hdrs([(name, "Zmine")]), "req 0 _"],
+                    "meta": {"kind": "corpus-header-case"}})
+    out.append({"lines": ["new %s 1" % x, "wrap 0 bauth", "wrap 1 prefix", "req 2 _", "req 0 _", "req 1 _",
+                          "new %s 1" % enc_str("ffff"), "req 3 _", "req 2 _"], "meta": {"kind": "corpus-derived"}})
+    out.append({"lines": ["new %s 1" % x, "req 0 _", "burst 0 10050", "req 0 _", "burst 0 3"],
+                "meta": {"kind": "corpus-burst-10000"}})
+    out.append({"lines": ["new %s 0" % x, "req 0 _", "req 0 %s" % enc_hdrs([("X-Request-ID", "Zq")]),
+                          "par 0 0@_|0@_ 0*5,1*9"], "meta": {"kind": "corpus-ids-disabled"}})
+    return out
+
+
+def gen_cases(rng, tier):
+    L, A, R = _prog_info()
+    quick = tier == "quick"
+    # sequential scenarios
+    for _ in range(1200 if quick else 30000):
+        lines = []
+        fams = _prelude(rng, lines)
+        allc = [c for _, (ids, cs) in fams.items() for c in cs]
+        for _ in range(rng.randrange(3, 25)):
+            lines.append(_req_line(rng, allc))
+            if rng.random() < 0.03:
+                lines.append("burst %d %d" % (rng.choice(allc), rng.randrange(1, 40)))
+        yield {"lines": lines, "meta": {"kind": "sequential"}}
+    # forced interleavings
+    for n in range(1500 if quick else 40000):
+        lines = []
+        fams = _prelude(rng, lines)
+        f = rng.choice(list(fams))
+        ids, conns = fams[f]
+        allc = [c for _, (_, cs) in fams.items() for c in cs]
+        for _ in range(rng.randrange(0, 4)):
+            lines.append(_req_line(rng, allc))
+        kind = SCHED_KINDS[n % len(SCHED_KINDS)]
+        for _ in range(rng.choice([1, 1, 2])):
+            lines.append(_par_line(rng, conns, kind, L, A, R))
+            lines.append(_req_line(rng, conns, 1.0))
+        yield {"lines": lines, "meta": {"kind": "par-" + kind}}
+    # exhaustive small scope: two threads, one call each, each stopped at every position
+    step = 1
+    for a in range(0, L + 1, step):
+        for b in range(0, L + 1, step):
+            yield {"lines": ["new %s 1" % enc_str("ab12"), "wrap 0 bauth",
+                             "par 0 0@_|1@_ 0*%d,1*%d" % (a, b), "req 0 _"],
+                   "meta": {"kind": "par-grid2"}}
+    if not quick:
+        for a in range(0, L + 1, 4):
+            for b in range(0, L + 1, 4):
+                for c in range(0, L + 1, 4):
+                    yield {"lines": ["new %s 1" % enc_str("ab12"),
+                                     "par 0 0@_+0@_|0@_+0@_|0@_ 0*%d,1*%d,2*%d,0*%d" % (a, b, c, L), "req 0 _"],
+                           "meta": {"kind": "par-grid3"}}
+        yield {"lines": ["new %s 1" % enc_str("ab12"), "burst 0 100050", "req 0 _"], "meta": {"kind": "burst-100000"}}
+
+
+# ====================================================================== directed search
+def _ask_driver(lines):
+    import subprocess
+    exe = os.path.join(LEAN, ".lake", "build", "bin", "drv_c16")
+    if not os.path.exists(exe):
+        return []
+    try:
+        p = subprocess.run([exe], input="\n".join(lines) + "\n", stdout=subprocess.PIPE, text=True, timeout=120)
+        return p.stdout.split("\n")
+    except Exception:
+        return []
+
+
+def search_cases(rng, tier):
+    x = enc_str("ab12")
+    L, A, R = _prog_info()
+    # 1. schedules on which the model (extracted program) hands out a number twice, replayed on the real code
+    for k, n in ((2, 1), (2, 2), (3, 1)):
+        out = _ask_driver(["reset", "enum %d %d 300000" % (k, n)])
+        if len(out) >= 2 and out[1].startswith("found "):
+            spec = "|".join("+".join(["0@_"] * n) for _ in range(k))
+            yield {"lines": ["new %s 1" % x, "par 0 %s %s" % (spec, out[1].split()[1]), "req 0 _"],
+                   "meta": {"kind": "search-model-schedule"}}
+    # 2. every capitalisation of the header name
+    base = "x-request-id"
+    letters = [i for i, c in enumerate(base) if c.isalpha()]
+    for mask in range(1 << len(letters)):
+        name = list(base)
+        for b, i in enumerate(letters):
+            if mask >> b & 1:
+                name[i] = name[i].upper()
+        yield {"lines": ["new %s 1" % x, "req 0 _", "req 0 %s" % enc_hdrs([("".join(name), "Zmine")]), "req 0 _"],
+               "meta": {"kind": "search-header-case"}}
+    # 3. the real function, two threads stopped at every pair of positions, then three threads
+    for a in range(0, L + 3):
+        for b in range(0, L + 3):
+            yield {"lines": ["new %s 1" % x, "par 0 0@_|0@_ 0*%d,1*%d" % (a, b), "req 0 _"],
+                   "meta": {"kind": "search-grid2"}}
+    for a in range(0, L + 3, 2):
+        for b in range(0, L + 3, 2):
+            yield {"lines": ["new %s 1" % x, "par 0 0@_+0@_|0@_+0@_ 0*%d,1*%d,0*%d,1*%d" % (a, b, L, L), "req 0 _"],
+                   "meta": {"kind": "search-grid2x2"}}
+    # 4. numbers far apart (a format that drops digits)
+    for n in (1005, 10050, 20010, 100010):
+        yield {"lines": ["new %s 1" % x, "burst 0 %d" % n, "req 0 _"], "meta": {"kind": "search-burst"}}
+    # 5. everything in ak/conn_http.py at bytecode granularity (the id code was moved or inlined)
+    for a in range(0, 1500, 1):
+        yield {"lines": ["new %s 1" % x, "parw 0 0@_|0@_ 0*%d,1*%d" % (a, DRAIN_RUN), "req 0 _"],
+               "meta": {"kind": "search-wide"}}
+    for _ in range(3000):
+        yield {"lines": ["new %s 1" % x, "parw 0 0@_+0@_|0@_+0@_ %s" % enc_sched(
+            [(rng.randrange(2), rng.randrange(1, 120)) for _ in range(rng.randrange(2, 30))]), "req 0 _"],
+            "meta": {"kind": "search-wide-random"}}
+
+
+# ====================================================================== shrinking, statistics
+def shrink(case):
+    lines = case["lines"]
+    meta = case.get("meta", {})
+    for i in range(len(lines) - 1, -1, -1):
+        if lines[i].split()[0] in ("req", "burst", "par", "parw"):
+            yield {"lines": lines[:i] + lines[i + 1:], "meta": meta}
+    for i, l in enumerate(lines):
+        tok = l.split()
+        if tok[0] in ("par", "parw"):
+            runs = [] if tok[3] == "-" else tok[3].split(",")
+            for j in range(len(runs)):
+                yield {"lines": lines[:i] + [" ".join(tok[:3] + [",".join(runs[:j] + runs[j + 1:]) or "-"])] + lines[i + 1:],
+                       "meta": meta}
+            ths = tok[2].split("|")
+            for j, t in enumerate(ths):
+                rs = [] if t == "." else t.split("+")
+                for k in range(len(rs)):
+                    t2 = "+".join(rs[:k] + rs[k + 1:]) or "."
+                    yield {"lines": lines[:i] + [" ".join([tok[0], tok[1], "|".join(ths[:j] + [t2] + ths[j + 1:]), tok[3]])]
+                           + lines[i + 1:], "meta": meta}
+        elif tok[0] == "burst" and int(tok[2]) > 1:
+            for n in (int(tok[2]) // 2, int(tok[2]) - 1):
+                yield {"lines": lines[:i] + ["burst %s %d" % (tok[1], n)] + lines[i + 1:], "meta": meta}
+        elif tok[0] == "req" and tok[2] != "_":
+            pairs = dec_hdrs(tok[2])
+            for j in range(len(pairs)):
+                yield {"lines": lines[:i] + [" ".join(["req", tok[1], enc_hdrs(pairs[:j] + pairs[j + 1:])] + tok[3:])]
+                       + lines[i + 1:], "meta": meta}
+
+
+def nontrivial(case, replies):
+    n = 0
+    for l, r in zip(case["lines"], replies):
+        t = l.split()[0]
+        if t in ("par", "parw") and "|" in l.split()[2]:
+            return True
+        if t == "burst" or (t == "req" and r.startswith("sent ") and r != "sent none"):
+            n += 1
+    return n >= 2
+
+
+def tags(case, replies):
+    yield case.get("meta", {}).get("kind", "?")
+    for l, r in zip(case["lines"], replies):
+        t = l.split()
+        if t[0] == "req":
+            pairs = dec_hdrs(t[2])
+            if any(_is_id_name(k) for k, _ in pairs):
+                yield "req:caller-id" + ("" if any(k == "X-Request-ID" for k, _ in pairs) else ":other-case")
+            else:
+                yield "req:auto" if r != "sent none" else "req:no-id"
+        elif t[0] in ("par", "parw"):
+            yield "par:threads=%d" % len(t[2].split("|"))
+            yield "par:reply=" + r.split()[0] + (":" + r.split()[1] if r.startswith("err") else "")
+        elif t[0] == "wrap":
+            yield "wrap:" + t[2]
+
+
+RULE = ("sequential scenarios (1-2 connection families, derived connections of 5 kinds, 3-25 requests with no / "
+        "unrelated / near-miss / caller-supplied id headers in many capitalisations, bursts across 9999->10000), "
+        "forced interleavings of 2-4 real threads x 0-3 requests inside the real _generate_request_id (random runs, "
+        "round robin, everybody stopped inside the locked section, whole-call blocks, stop positions grid), "
+        "all pairs of stop positions for 2 threads. non-trivial = a par line with >= 2 threads "
+        "or >= 2 id-carrying sequential requests; distinct by protocol text")
+TRUSTED = ["CPython switches threads only between bytecode instructions (GIL)", "threading.Lock (mutual exclusion)",
+           "sys.settrace opcode events = the instructions dis lists (cross-checked against a traced call on every run)",
+           "urllib.request.Request header capitalisation (what is observed is what it reports under 'X-request-id')"]
+ASSUMPTIONS = ["the counter is an int whenever _generate_request_id runs (do_request tests `is not None` first; "
+               "the translator follows the not-None branch)",
+               "registers are written before they are read in the extracted straight-line program"]
+KNOWN = {}
+
+LEVEL_TEXT = ("Proved in Lean for every program of the WellLocked shape, any number of threads and EVERY schedule "
+              "(invariant + ghost-log refinement, no enumeration): returned numbers pairwise distinct within and "
+              "between threads, gap-free ({c..c'-1} at quiescence, counter advanced by the number of calls), "
+              "increasing per thread (locked_unique, locked_gap_free, locked_in_order, par_ids = the function the "
+              "driver executes for a forced schedule). program_ok: the instruction list extracted on every run from "
+              "the bytecode of _generate_request_id is WellLocked (decide). format_injective: the extracted id "
+              "format is injective in the number; caller_id: a request with its own X-Request-ID in any "
+              "capitalisation changes no counter and keeps its headers; derived_shares: derived connections use the "
+              "parent's counter. model = code: sequential scenarios and forced interleavings of real threads inside "
+              "the real function (opcode-level scheduler) compared id by id with the compiled model.")
+LEVEL_NOTE = ("Partial by nature: CPython's 'threads switch only between bytecodes' and threading.Lock are trusted, not "
+              "proved; the translator (dis + symbolic stack evaluation, cross-checked against a traced call) and the "
+              "adapter are trusted; model = code only on the sampled scenarios and schedules. do_request's id branch "
+              "is modelled by hand around two generated constants (header test, header name); adapters that would "
+              "themselves add an X-Request-ID are not modelled.")
+TECHNIQUE = ("Lean 4 invariant proof over all schedules of a bytecode-extracted instruction list + decide on the "
+             "generated program + forced-interleaving differential test (sys.settrace opcode scheduler)")
